@@ -849,7 +849,13 @@ func runLifeCase(c cfg, seed uint64, o lifeOpts, keys map[string]struct{}) (eval
 			if fdIdent(fd) != id {
 				continue
 			}
-			if fi, known := vsys.Info(fd); !(vsys.Shimmed && known && fi.State == 1) { // owned ones were reported by the ledger above
+			if !vsys.Shimmed {
+				// plain build (strace job): leaks are decided by the shim flavour, whose ledger names the creation site;
+				// without it a generic "socket left open" could not be told from the listed accept0 leak
+				res.Obs("plain_flavour_descriptors_left_open", 1)
+				continue
+			}
+			if fi, known := vsys.Info(fd); !(known && fi.State == 1) { // owned ones were reported by the ledger above
 				res.Violate("C07 descriptor left open after Run returned kind="+kindOf(id), fmt.Sprintf("config %s: fd %d -> %s was not open before the engine started and is still open after Run returned", c, fd, id), map[string]any{"config": c.String()})
 			}
 		}
